@@ -14,7 +14,7 @@ R28  `for` over an owned collection, by definition `for PAT in E { B }` -> `let 
      vec::IntoIter / hash_map::IntoIter).  Nothing is dropped.
 R29  closure passed to handle_upper_inode_locked inlined
      `RECV.handle_upper_inode_locked(&mut |P| -> Result<bool> { BODY })?;`  ->
-     `{ let hu_g = RECV.real_inodes.lock().unwrap(); let P: Option<&RealInode> = hu_upper(&hu_g, ..)?; BODY' }`
+     `{ let P: Option<&RealInode> = RECV.hu_upper()?; BODY' }`
      where hu_upper is the dispatch of handle_upper_inode_locked (first real inode if it is in the upper layer, None otherwise, Err for a
      node without real inodes; the real text of handle_upper_inode_locked is verified against this very contract in unit ovl_merge) and
      BODY' is BODY with its final `Ok(false)` / `Ok(true)` dropped.  Inside the closure `return Err(E)` and `?` hand the error to the
@@ -121,7 +121,7 @@ def r28_for_owned(pattern_rx, ctor, itname, header_extra='', body_prefix='', mid
     return hook
 
 
-def r29_inline_upper_closure(nth, guard, extra_arg=''):
+def r29_inline_upper_closure(nth):
     """-> hook: the nth (0-based, counted on the text as it is when the hook runs) `RECV.handle_upper_inode_locked(&mut |P| -> Result<bool> { BODY })?;`"""
     def hook(body, fired):
         msk = X.mask(body)
@@ -143,7 +143,19 @@ def r29_inline_upper_closure(nth, guard, extra_arg=''):
         if not fm:
             raise X.ExtractError('R29: the closure does not end in Ok(false) / Ok(true)')
         inner = inner[:fm.start()] + X._pad('', inner[fm.start():])
-        head = '{ let %s = %s.real_inodes.lock().unwrap(); let %s: Option<&RealInode> = hu_upper(&%s%s)?;' % (guard, recv, p, guard, extra_arg)
+        head = '{ let %s: Option<&RealInode> = %s.hu_upper()?;' % (p, recv)
         fired.append('R29 closure %d passed to %s.handle_upper_inode_locked inlined (dispatch = hu_upper; final Ok(bool) dropped)' % (nth, recv))
         return body[:m.start()] + X._pad(head, body[m.start():ob + 1]) + inner + X._pad('}', body[cb:e]) + body[e:]
+    return hook
+
+
+def resub_hook(rx, rep, why):
+    """a body_resub rule (regex -> replacement, every occurrence, logged as ABSTRACT) that must run BEFORE the ghost-token rule R23, because
+    its replacement contains a call that takes the token"""
+    def hook(body, fired):
+        n = len(re.findall(rx, body, flags=re.S))
+        if n:
+            body = re.sub(rx, lambda m: X._pad(m.expand(rep), m.group(0)), body, flags=re.S)
+            fired.append('ABSTRACT /%s/ -> %s (%s) x%d' % (rx[:60], rep[:60], why, n))
+        return body
     return hook
